@@ -513,6 +513,44 @@ func splitTextDate(s string) (year uint16, month uint8, day uint8, ok bool) {
 	return uint16(n[0]*1000 + n[1]*100 + n[2]*10 + n[3]), uint8(n[5]*10 + n[6]), uint8(n[8]*10 + n[9]), true
 }
 
+// splitTextDatetime splits a text datetime "YYYY-MM-DD HH:MM:SS" with an
+// optional fraction of one to six digits into its numbers. The clock must be a
+// time of day; year, month and day are not checked to form a calendar date.
+func splitTextDatetime(s string) (year uint16, month uint8, day uint8, clock [3]uint8, micro uint32, ok bool) {
+	if len(s) < 19 || s[10] != ' ' || s[13] != ':' || s[16] != ':' {
+		return 0, 0, 0, clock, 0, false
+	}
+	year, month, day, ok = splitTextDate(s[:10])
+	if !ok {
+		return 0, 0, 0, clock, 0, false
+	}
+	for i, pos := range [3]int{11, 14, 17} {
+		if s[pos] < '0' || s[pos] > '9' || s[pos+1] < '0' || s[pos+1] > '9' {
+			return 0, 0, 0, clock, 0, false
+		}
+		clock[i] = (s[pos]-'0')*10 + (s[pos+1] - '0')
+	}
+	if clock[0] > 23 || clock[1] > 59 || clock[2] > 59 {
+		return 0, 0, 0, clock, 0, false
+	}
+	if len(s) > 19 {
+		frac := s[20:]
+		if s[19] != '.' || len(frac) < 1 || len(frac) > 6 {
+			return 0, 0, 0, clock, 0, false
+		}
+		for i := 0; i < 6; i++ {
+			micro *= 10
+			if i < len(frac) {
+				if frac[i] < '0' || frac[i] > '9' {
+					return 0, 0, 0, clock, 0, false
+				}
+				micro += uint32(frac[i] - '0')
+			}
+		}
+	}
+	return year, month, day, clock, micro, true
+}
+
 // AppendBinaryValue encode binary-type value of prepare binary protocol according to type of value
 func AppendBinaryValue(data []byte, fieldType uint8, value interface{}) ([]byte, error) {
 	// constructor phase
@@ -580,7 +618,24 @@ func AppendBinaryValue(data []byte, fieldType uint8, value interface{}) ([]byte,
 				t = append(t, 0)
 			} else {
 				ts, err := time.Parse("2006-01-02 15:04:05", v)
-				if err != nil {
+				if err == nil {
+					t = append(t, 11)
+					t = AppendUint16(t, uint16(ts.Year()))
+					t = append(t, byte(int(ts.Month())), byte(ts.Day()), byte(ts.Hour()), byte(ts.Minute()), byte(ts.Second()))
+					microseconds := uint32(ts.Nanosecond() / 1000)
+					t = AppendUint32(t, microseconds)
+				} else if year, month, day, clock, micro, ok := splitTextDatetime(v); ok {
+					// not an instant of the calendar, but a value MySQL stores and returns:
+					// 0000-00-00 00:00:00.000000, 2020-00-00 00:00:00, 2021-02-30 10:00:00
+					if year == 0 && month == 0 && day == 0 && clock == [3]uint8{} && micro == 0 {
+						t = append(t, 0)
+					} else {
+						t = append(t, 11)
+						t = AppendUint16(t, year)
+						t = append(t, month, day, clock[0], clock[1], clock[2])
+						t = AppendUint32(t, micro)
+					}
+				} else {
 					var mysqlTypeStr string
 					if fieldType == TypeDatetime {
 						mysqlTypeStr = "TypeDatetime"
@@ -589,12 +644,6 @@ func AppendBinaryValue(data []byte, fieldType uint8, value interface{}) ([]byte,
 					}
 					return nil, fmt.Errorf("invalid %s %s", mysqlTypeStr, v)
 				}
-
-				t = append(t, 11)
-				t = AppendUint16(t, uint16(ts.Year()))
-				t = append(t, byte(int(ts.Month())), byte(ts.Day()), byte(ts.Hour()), byte(ts.Minute()), byte(ts.Second()))
-				microseconds := uint32(ts.Nanosecond() / 1000)
-				t = AppendUint32(t, microseconds)
 			}
 		case TypeDate, TypeNewDate:
 			// format: 2006-01-02
